@@ -129,6 +129,8 @@ func (srv *Server) handleChannel(ctx context.Context, c *ServerChannel) {
 
 	if err != nil {
 		log.Printf("server: establish: %v\n", err)
+		// Release the connection, since the session will not be served
+		_ = c.Close()
 		return
 	}
 
